@@ -6,7 +6,8 @@ Values (bien / tbien / ktbien): every binary string of length 2..10 (2044 string
 structured strings of length 11..300 (bien: a 11..64 bucket and a 65..300 bucket with fixed lengths\n65, 66, 100, 128, 129, 200, 300; tbien, ktbien: 11..300).  The returned double is transported exactly
 (float.hex() -> integer mantissa and exponent) and must lie within 2^-30 of the verified interval enclosure of the
 model's real value.  In run_impl the metamorphic partners (complement, reverse, rotations) are also evaluated on the
-implementation; oracle() checks them with tolerance 1e-12 and checks 0.0 <= v <= 1.0 on every double (a test).
+implementation; oracle() checks them with tolerance 1e-12, checks 0.0 <= v <= 1.0 on every double (a test), and compares
+every value with reference(): Croll's weighted mean over all n-1 derivatives computed independently (tolerance 1e-9).
 """
 from harness.driver import call_impl, cz, cbool, clist, czlist, cres
 
@@ -19,7 +20,9 @@ EXHAUSTIVE = {'quick': True, 'thorough': True}
 NOTES = ['both tiers: binary_derivative and cyclic_binary_derivative on ALL 2047 binary strings of length 0..10 (exact); '
          'bien, tbien, ktbien on ALL 2044 binary strings of length 2..10 (through the enclosure)',
          'the thorough tier is also complete for lengths 11 and 12 (6144 more strings, all five functions)',
-         'bien at length 1025, the longest string on which the code returns (OverflowError from 1026), is pinned in both tiers; '
+         'long strings (lengths 1024, 1025, 1026, 1027, 1500, 2048; random, alternating, all-zero-but-one, periodic): 5 cases in the quick tier, '
+         '57 in the thorough tier, for tbien and ktbien at every length and for bien up to 1025, the longest string on which the code returns '
+         '(OverflowError from 1026); enclosure at 64 bits (width < 2^-50), tolerance 2^-30 as everywhere; '
          'periodic strings of period 2, 4, 8 and length 11..64 for all three functions',
          'beyond that sampled: lengths 11..300 for bien (incl. 65, 66, 100, 128, 129, 200, 300: weights 2^k beyond a machine word), tbien, ktbien and the derivatives (uniform, sparse, '
          'periodic, constant, alternating strings); the thorough tier takes 16 times more of them',
@@ -82,6 +85,50 @@ def rand_string(rng, n):
     return '0' * (n - 1) + '1'                        # single one at the end
 
 
+def long_string(rng, n, content):
+    if content == 'random':
+        return ''.join(rng.choice('01') for _ in range(n))
+    if content == 'alternating':
+        return ('01' * n)[:n]
+    if content == 'single':                           # all zero but one
+        k = rng.randrange(n)
+        return '0' * k + '1' + '0' * (n - k - 1)
+    per = ''.join(rng.choice('01') for _ in range(rng.choice([3, 5, 7, 8, 12])))
+    if '1' not in per:
+        per = per[:-1] + '1'
+    return (per * (n // len(per) + 1))[:n]
+
+
+# ---------------------------------------------------------------- independent reference (second detector)
+def _ref_H(s):
+    import math
+    n = len(s)
+    c = s.count('1')
+    if c == 0 or c == n:
+        return 0.0
+    return math.log2(n) - (c * math.log2(c) + (n - c) * math.log2(n - c)) / n
+
+
+def reference(op, s):
+    """Croll's definition computed independently of cellpylib: entropies from the two counts, derivatives with zip,
+    bien in exact rational arithmetic (Fractions of the float entropies, integer weights 2^k), tbien/ktbien with
+    math.fsum over ALL n-1 (cyclic) derivatives."""
+    import math
+    from fractions import Fraction
+    n = len(s)
+    hs = []
+    for _ in range(n - 1):
+        hs.append(_ref_H(s))
+        if op == 'ktbien':
+            s = ''.join('1' if a != b else '0' for a, b in zip(s, s[1:] + s[:1]))
+        else:
+            s = ''.join('1' if a != b else '0' for a, b in zip(s, s[1:]))
+    if op == 'bien':
+        return float(sum(Fraction(h) * (1 << k) for k, h in enumerate(hs)) / ((1 << (n - 1)) - 1))
+    ws = [math.log2(k + 2) for k in range(n - 1)]
+    return math.fsum(h * w for h, w in zip(hs, ws)) / math.fsum(ws)
+
+
 # ---------------------------------------------------------------- generation
 def generate(rng, tier):
     light = []
@@ -116,12 +163,22 @@ def generate(rng, tier):
             heavy.append({'kind': 'bien/random_len65..300', 'op': 'bien', 's': s})
     for _ in range(6 * scale):
         heavy.append({'kind': 'bien/random_len65..300', 'op': 'bien', 's': rand_string(rng, rng.randint(65, 300))})
-    # the largest length at which bien still returns (2**1024 no longer converts to float): one pinned case
-    # (about 48 s of interval evaluation: the logarithm table stops at 301)
-    heavy.append({'kind': 'bien/len1025_pinned', 'op': 'bien', 's': ''.join(rng.choice('01') for _ in range(1025))})
-    if tier == 'thorough':
-        heavy.append({'kind': 'bien/len1025_pinned', 'op': 'bien', 's': rand_string(rng, 1025)})
-        heavy.append({'kind': 'bien/len600..1024', 'op': 'bien', 's': rand_string(rng, rng.randint(600, 1024))})
+    # long strings (beyond the 301-entry logarithm table: Corr.C18.enclosure switches to Model/BienLong.v, 64 bits,
+    # a table built per string; 15 s at n ~ 1025, 23 s at 1500, 32 s at 2048).  1025 is the largest length at which
+    # bien still returns (from 1026 the unchanged code raises OverflowError: 2**1024 does not convert to float), so
+    # bien is only called up to 1025; tbien and ktbien have no such limit.
+    xheavy = []
+    if tier == 'quick':
+        plan = [('tbien', 1026, 'random'), ('ktbien', 1026, 'periodic'), ('ktbien', 1027, 'single'),
+                ('tbien', 2048, 'random'), ('bien', 1025, 'random')]
+    else:
+        plan = [(f, n, cont) for n in (1024, 1025, 1026, 1027, 1500, 2048) for f in ('tbien', 'ktbien')
+                for cont in ('random', 'alternating', 'single', 'periodic')]
+        plan += [('bien', n, cont) for n in (1024, 1025) for cont in ('random', 'alternating', 'single', 'periodic')]
+        plan += [('bien', rng.randint(600, 1023), 'random')]
+    for f, n, cont in plan:
+        xheavy.append({'kind': 'long/%s_len%s' % (f, '1025_pinned' if (f, n) == ('bien', 1025) else '1024..2048' if n >= 1024 else '600..1023'),
+                       'op': f, 's': long_string(rng, n, cont), 'content': cont})
     # periodic strings (period 2, 4, 8): their derivative chains reach the zero string early, so most terms of the
     # mean are 0 while the normaliser still has to count every weight
     pers = ['01', '10', '0011', '0110', '0001', '0111', '0101', '00001111', '00110011', '01010101', '00010001',
@@ -141,14 +198,21 @@ def generate(rng, tier):
             heavy.append({'kind': '%s/random_len11..300' % f, 'op': f, 's': rand_string(rng, n)})
     rng.shuffle(heavy)
     # spread the expensive cases evenly over the shards
+    out = []
     step = max(1, len(light) // (len(heavy) + 1))
     hi = 0
     for i, c in enumerate(light):
-        yield c
+        out.append(c)
         if i % step == step - 1 and hi < len(heavy):
-            yield heavy[hi]
+            out.append(heavy[hi])
             hi += 1
-    for c in heavy[hi:]:
+    out.extend(heavy[hi:])
+    # the very expensive long cases: one per stretch of the output, so that they land in different shards
+    span = len(out) if tier != 'quick' else min(len(out), 15 * 400)     # quick: all in the first wave of 16 shards
+    stride = max(1, span // (len(xheavy) + 1))
+    for j, c in enumerate(xheavy):
+        out.insert(min(len(out), (j + 1) * stride + j), c)
+    for c in out:
         yield c
 
 
@@ -185,7 +249,7 @@ def run_impl(c):
     obs = {'v': _val(fn, s), 'compl': _val(fn, compl(s)), 'rev': _val(fn, s[::-1])}
     if c['op'] == 'ktbien':
         n = len(s)
-        ks = sorted(set([1, n // 2, n - 1, (7 * n) // 10]) - {0})
+        ks = sorted(set([1, n // 2, n - 1, (7 * n) // 10]) - {0}) if n <= 301 else [(7 * n) // 10]
         obs['rot'] = [[k, _val(fn, s[k:] + s[:k])] for k in ks]
     return obs
 
@@ -224,6 +288,9 @@ def oracle(c, obs):
     v = me_to_float(obs['v'][1])
     if not (0.0 <= v <= 1.0):
         return '%s value %r outside [0, 1]' % (c['op'], v)
+    ref = reference(c['op'], s)
+    if abs(ref - v) > 1e-9:
+        return '%s value %r differs from the independent weighted mean over all n-1 derivatives %r (n = %d)' % (c['op'], v, ref, len(s))
     partners = [('complement', obs['compl']), ('reverse', obs['rev'])]
     partners += [('rotation by %d' % k, o) for k, o in obs.get('rot', [])]
     for name, o in partners:
